@@ -254,7 +254,7 @@ def perform(label, path, action):
 
         def fn(x):
             calls.append(x)
-            return x * x + 1
+            return None if x % 3 == 0 else x * x + 1     # None is a result like any other
         keymap = {'default': None, 'hash': km.hashmap(flat=True), 'string': km.stringmap(flat=True), 'pickle': km.picklemap(flat=True)}[kmname]
         kw = {} if algo in ('inf_cache', 'no_cache') else {'maxsize': 50}
         g = getattr(klepto, algo)(cache=ctor(label, path, cached=True), keymap=keymap, **kw)(fn)
